@@ -436,13 +436,15 @@ void phpy_set_smallest_vectors_sparse(
             count = 0;
             for (k = 0; k < num_lattice_points; k++) {
                 if (length[k] - minimum < symprec) {
-                    for (l = 0; l < 3; l++) {
-                        /* Transform back to supercell coordinates */
-                        vec_xyz = (trans_mat[l][0] * vec[k][0] +
-                                   trans_mat[l][1] * vec[k][1] +
-                                   trans_mat[l][2] * vec[k][2]);
-                        smallest_vectors[i * num_pos_from + j][count][l] =
-                            vec_xyz;
+                    if (count < 27) { /* only 27 slots per pair exist */
+                        for (l = 0; l < 3; l++) {
+                            /* Transform back to supercell coordinates */
+                            vec_xyz = (trans_mat[l][0] * vec[k][0] +
+                                       trans_mat[l][1] * vec[k][1] +
+                                       trans_mat[l][2] * vec[k][2]);
+                            smallest_vectors[i * num_pos_from + j][count][l] =
+                                vec_xyz;
+                        }
                     }
                     count++;
                 }
